@@ -8,6 +8,7 @@ open Pox Pox.Proto Pox.Packet Pox.Actions
   {"var":{"d7":b,"d8":b,"c121":b,"c122":b}, "ports":[{"no":n,"hw":hex,"config":n,"state":n},…], "bufs":n (max_buffers, default 4096), "ops":[op,…]}
     op = {"op":"portmod","port":n,"hw":hex,"config":n,"mask":n} | {"op":"setconfig","flags":n,"miss":n}
        | {"op":"flow","in_port":n|null,"acts":[act,…]} | {"op":"pktout","in_port":n,"acts":[act,…],"data":hex}
+       | {"op":"stats","port":n|null} | {"op":"features"}   (read-outs: [{"k":"stats","ports":[…]}] / [{"k":"features","ports":[…]}])
        | {"op":"rx","port":n,"data":hex[,"nopd":true]} | {"op":"link","port":n,"down":b}
     act = {"a":"output","port":n,"max_len":n} | {"a":"set_vlan_vid","v":n} | {"a":"set_vlan_pcp","v":n} | {"a":"strip_vlan"}
         | {"a":"set_dl_src","v":hex} | {"a":"set_dl_dst","v":hex} | {"a":"set_nw_src","v":n} | {"a":"set_nw_dst","v":n}
@@ -85,9 +86,32 @@ def specOf (sw : Sw) : Op → J
   | .rxObj f inPort => J.arr ((settle sw.bufFree (Spec.rxObjOuts sw f inPort)).2.map outJ)
   | _ => J.null
 
-def loop (var : Variant) : Sw → List Op → List J → List J → Sw × List J × List J × Option String
+/-- driver-level operations: the model's, plus read-outs that do not change the state (a port-stats request for one port
+or all, a features request) -/
+inductive DOp where
+  | model (o : Op)
+  | stats (port : Option Nat)
+  | features
+
+def dopOfJ (j : J) : Except String DOp := do
+  let k ← j.string "op"
+  if k = "stats" then pure (.stats (← j.optNat "port"))
+  else if k = "features" then pure .features
+  else pure (.model (← opOfJ j))
+
+def statJ (s : Stat) : J :=
+  J.mk [("no", J.ofNat s.no), ("rx_p", J.ofNat s.rxP), ("rx_b", J.ofNat s.rxB), ("tx_p", J.ofNat s.txP), ("tx_b", J.ofNat s.txB)]
+
+def loop (var : Variant) : Sw → List DOp → List J → List J → Sw × List J × List J × Option String
   | sw, [], outs, specs => (sw, outs.reverse, specs.reverse, none)
-  | sw, op :: ops, outs, specs =>
+  | sw, .stats port :: ops, outs, specs =>
+    let sel := sw.ports.filterMap fun p =>
+      if port.isNone || port == some p.no then (sw.stats.find? fun s => s.no == p.no) else none
+    loop var sw ops (J.arr [J.mk [("k", J.str "stats"), ("ports", J.arr (sel.map statJ))]] :: outs) (J.null :: specs)
+  | sw, .features :: ops, outs, specs =>
+    let ps := sw.ports.map fun p => J.mk [("no", J.ofNat p.no), ("config", J.ofNat p.config), ("state", J.ofNat p.state)]
+    loop var sw ops (J.arr [J.mk [("k", J.str "features"), ("ports", J.arr ps)]] :: outs) (J.null :: specs)
+  | sw, .model op :: ops, outs, specs =>
     match step var sw op with
     | .ok (sw', o) => loop var sw' ops (J.arr (o.map outJ) :: outs) (specOf sw op :: specs)
     | .error e => (sw, outs.reverse, specs.reverse, some e.toString)
@@ -99,7 +123,7 @@ def handle (j : J) : Except String J := do
                           c126 := match vj.get? "c126" with | some (.bool b) => b | _ => false }
   let ports ← (← j.array "ports").mapM fun p => do
     pure ({ no := ← p.nat "no", hw := ← p.bytes "hw", config := ← p.nat "config", state := ← p.nat "state" } : Port)
-  let ops ← (← j.array "ops").mapM opOfJ
+  let ops ← (← j.array "ops").mapM dopOfJ
   let bufs := (← j.optNat "bufs").getD 4096
   let (sw, outs, specs, exc) := loop var { ports := ports, stats := ports.map fun p => { no := p.no }, bufFree := bufs } ops [] []
   pure (J.mk [("outs", J.arr outs), ("exc", match exc with | some e => J.str e | none => J.null),
